@@ -330,6 +330,45 @@ class Interp:
         t = self.truth(self.eval(st.test, frame), frame, st.test)
         self.exec_block(st.body if t else st.orelse, frame)
 
+    def st_Match(self, st, frame):
+        """match / case: the chain of tests it stands for (value patterns are `==`, None / True / False are `is`, sequence
+        patterns compare element by element, `_` and bare names always match, `a | b` tries each in turn)."""
+        subject = self.eval(st.subject, frame)
+        for case in st.cases:
+            if self.match_pattern(case.pattern, subject, frame, st):
+                if case.guard is None or self.truth(self.eval(case.guard, frame), frame, case.guard):
+                    self.exec_block(case.body, frame)
+                    return
+
+    def match_pattern(self, pat, val, frame, node) -> bool:
+        if isinstance(pat, ast.MatchValue):
+            return bool(self.truth(self.compare(ast.Eq(), val, self.eval(pat.value, frame), frame, node), frame, node))
+        if isinstance(pat, ast.MatchSingleton):
+            v0 = self.resolve_maybe(val)
+            if isinstance(pat.value, bool):
+                if isinstance(v0, BoolV):
+                    return bool(self.truth(v0, frame, node)) == pat.value   # a comparison result is True or False, nothing else
+                if isinstance(v0, (Num, StrV, NoneV, ObjV, TupV, ListV)) or v0 is NONE:
+                    return False
+            return bool(self.truth(self.compare(ast.Is(), val, self.eval(ast.Constant(value=pat.value), frame), frame, node), frame, node))
+        if isinstance(pat, ast.MatchAs):
+            if pat.pattern is not None and not self.match_pattern(pat.pattern, val, frame, node):
+                return False
+            if pat.name is not None:
+                frame.env[pat.name] = val
+            return True
+        if isinstance(pat, ast.MatchOr):
+            return any(self.match_pattern(p, val, frame, node) for p in pat.patterns)
+        if isinstance(pat, ast.MatchSequence) and not any(isinstance(p, ast.MatchStar) for p in pat.patterns):
+            v = self.force(val, frame, node)
+            items = self.as_items(v, frame, node) if isinstance(v, (TupV, ListV)) else None
+            if items is None:
+                raise Unmodelled("sequence pattern against %r at %s" % (v, frame.loc(node)))
+            if len(items) != len(pat.patterns):
+                return False
+            return all(self.match_pattern(p, x, frame, node) for p, x in zip(pat.patterns, items))
+        raise Unmodelled("match pattern %s at %s" % (type(pat).__name__, frame.loc(node)))
+
     def st_Try(self, st, frame):
         caught = []
         for h in st.handlers:
